@@ -145,8 +145,13 @@ def replay_all(ck, cases, engine, tag):
         for idx, itn, key, msg in fails:
             first.setdefault(idx, (itn, key, msg))
         if first:
+            known = {idx for idx in first if ck.findings.is_known(PROP, finding_key(first[idx][1], engine, cases[idx], first[idx][0]))}
+            for idx in sorted(known):          # counted as KNOWN-FINDING by Check.violation, never reported: no re-run needed
+                itn, key, msg = first.pop(idx)
+                ck.violation(finding_key(key, engine, cases[idx], itn), msg, None)
+            ck.add("known_finding_hits", len(known))
             again = [(idx, cases[idx], engine) for idx in sorted(first)]     # rule 5: re-run once before reporting
-            f2, d2 = run_chunk(again)
+            f2, d2 = run_chunk(again) if again else ([], None)
             still = set(first) if d2 else {f[0] for f in f2}
             for idx in sorted(first):
                 itn, key, msg = first[idx]
